@@ -150,3 +150,237 @@ func init() {
 		}
 	})
 }
+
+// ---- reply-buffer ownership along the control-flow paths of udpWithFallback.ExchangeContext
+//
+// The function receives pooled reply buffers from the two transports and must hand at most one of them to its
+// caller; every other one goes back to the pool exactly once, and none is read, returned or released after it
+// went back. The fact is the list of paths through the function body, each a list of events (kind, variable):
+//   0 got v       v, err := <call>            1 lost v     the `if err != nil` branch right behind it (v is nil)
+//   2 use v       v is read (condition, argument of a call that is not the release)
+//   3 release v   pool.ReleaseBuf(v)          4 defer v    defer pool.ReleaseBuf(v)
+//   5 return v    return v, ...               6 return something that is no variable (nil, the result of a call)
+// Statement kinds outside {define/assign from a call, if/else, block, return, defer, call statement}, a variable
+// assigned twice on one path, or a buffer variable that escapes in another way make the fact `none`.
+
+type c01BufPaths struct {
+	ex      *factExtractor
+	vars    map[string]int
+	order   []string
+	paths   [][][2]int
+	bad     string
+	maxPath int
+}
+
+func (p *c01BufPaths) fail(why string) {
+	if p.bad == "" {
+		p.bad = why
+	}
+}
+
+func (p *c01BufPaths) isRelease(c *ast.CallExpr) (string, bool) {
+	if p.ex.str(c.Fun) != "pool.ReleaseBuf" || len(c.Args) != 1 {
+		return "", false
+	}
+	id, ok := c.Args[0].(*ast.Ident)
+	if !ok {
+		return "", false
+	}
+	_, tracked := p.vars[id.Name]
+	return id.Name, tracked
+}
+
+// uses lists the tracked variables mentioned in an expression, in source order.
+func (p *c01BufPaths) uses(n ast.Node) []int {
+	var out []int
+	if n == nil {
+		return out
+	}
+	ast.Inspect(n, func(x ast.Node) bool {
+		if id, ok := x.(*ast.Ident); ok {
+			if v, tracked := p.vars[id.Name]; tracked {
+				out = append(out, v)
+			}
+		}
+		return true
+	})
+	return out
+}
+
+// walk runs the statements `todo` (a stack of statement lists: the rest of the innermost block first) from the
+// events collected so far; every return statement ends one path.
+func (p *c01BufPaths) walk(todo [][]ast.Stmt, evs [][2]int, lastGot int) {
+	if p.bad != "" {
+		return
+	}
+	for len(todo) > 0 && len(todo[0]) == 0 {
+		todo = todo[1:]
+	}
+	if len(todo) == 0 {
+		p.fail("a path falls off the end of the function")
+		return
+	}
+	s, rest := todo[0][0], append([][]ast.Stmt{todo[0][1:]}, todo[1:]...)
+	add := func(k, v int) [][2]int { return append(append([][2]int(nil), evs...), [2]int{k, v}) }
+	switch st := s.(type) {
+	case *ast.BlockStmt:
+		p.walk(append([][]ast.Stmt{st.List}, rest...), evs, -1)
+	case *ast.AssignStmt:
+		call, isCall := (ast.Expr)(nil), false
+		if len(st.Rhs) == 1 {
+			_, isCall = st.Rhs[0].(*ast.CallExpr)
+			call = st.Rhs[0]
+		}
+		if !isCall || len(st.Lhs) != 2 {
+			if len(p.uses(st)) > 0 {
+				p.fail("a reply buffer is copied or assigned: " + p.ex.str(st))
+				return
+			}
+			p.walk(rest, evs, -1)
+			return
+		}
+		for _, v := range p.uses(call) {
+			evs = add(2, v)
+		}
+		id, ok := st.Lhs[0].(*ast.Ident)
+		if !ok {
+			p.fail("unrecognised assignment: " + p.ex.str(st))
+			return
+		}
+		if id.Name == "_" {
+			p.fail("a reply is discarded without release: " + p.ex.str(st))
+			return
+		}
+		v, seen := p.vars[id.Name]
+		if !seen {
+			v = len(p.order)
+			p.vars[id.Name] = v
+			p.order = append(p.order, id.Name)
+		}
+		for _, e := range evs {
+			if e[0] == 0 && e[1] == v {
+				p.fail("a reply variable is assigned twice on one path: " + id.Name)
+				return
+			}
+		}
+		p.walk(rest, add(0, v), v)
+	case *ast.IfStmt:
+		if st.Init != nil {
+			// `if v, err := call; cond { ... }`: same as the statement followed by the if
+			cp := *st
+			cp.Init = nil
+			p.walk(append([][]ast.Stmt{{st.Init, &cp}}, rest...), evs, lastGot)
+			return
+		}
+		for _, v := range p.uses(st.Cond) {
+			evs = add(2, v)
+		}
+		thenEvs := evs
+		if lastGot >= 0 && p.ex.str(st.Cond) == "err != nil" {
+			thenEvs = add(1, lastGot)
+		}
+		p.walk(append([][]ast.Stmt{st.Body.List}, rest...), thenEvs, -1)
+		if st.Else != nil {
+			p.walk(append([][]ast.Stmt{{st.Else}}, rest...), evs, -1)
+		} else {
+			p.walk(rest, evs, -1)
+		}
+	case *ast.ReturnStmt:
+		if len(st.Results) == 0 {
+			p.fail("unrecognised return: " + p.ex.str(st))
+			return
+		}
+		if _, tail := st.Results[0].(*ast.CallExpr); !(len(st.Results) == 2 || len(st.Results) == 1 && tail) {
+			p.fail("unrecognised return: " + p.ex.str(st))
+			return
+		}
+		switch r := st.Results[0].(type) {
+		case *ast.Ident:
+			if v, tracked := p.vars[r.Name]; tracked {
+				evs = add(5, v)
+			} else if r.Name == "nil" {
+				evs = add(6, 0)
+			} else {
+				p.fail("returns a variable that was not followed: " + r.Name)
+				return
+			}
+		case *ast.CallExpr:
+			for _, v := range p.uses(r) {
+				evs = add(2, v)
+			}
+			evs = add(6, 0)
+		default:
+			p.fail("unrecognised return: " + p.ex.str(st))
+			return
+		}
+		if len(p.paths) >= p.maxPath {
+			p.fail("too many paths")
+			return
+		}
+		p.paths = append(p.paths, evs)
+	case *ast.DeferStmt:
+		if v, ok := p.isRelease(st.Call); ok {
+			p.walk(rest, add(4, p.vars[v]), -1)
+		} else if len(p.uses(st.Call)) > 0 {
+			p.fail("a reply buffer escapes into a deferred call: " + p.ex.str(st))
+		} else {
+			p.walk(rest, evs, -1)
+		}
+	case *ast.ExprStmt:
+		c, ok := st.X.(*ast.CallExpr)
+		if !ok {
+			p.fail("unrecognised statement: " + p.ex.str(st))
+			return
+		}
+		if v, ok := p.isRelease(c); ok {
+			p.walk(rest, add(3, p.vars[v]), -1)
+			return
+		}
+		for _, v := range p.uses(c) {
+			evs = add(2, v)
+		}
+		p.walk(rest, evs, -1)
+	default:
+		p.fail("statement kind outside the recognised subset: " + p.ex.str(s))
+	}
+}
+
+func init() {
+	factFuncs = append(factFuncs, func(ex *factExtractor) {
+		const name = "c01FallbackBufPaths"
+		const typ = "Option (List (List (Nat × Nat)))"
+		note := "udpWithFallback.ExchangeContext: every control-flow path as events (kind, variable) on reply buffers: 0 got, 1 lost (the err != nil branch), 2 read, 3 pool.ReleaseBuf, 4 deferred pool.ReleaseBuf, 5 returned to the caller, 6 something else returned"
+		fd := ex.fn("pkg/upstream/upstream.go", "udpWithFallback", "ExchangeContext")
+		if fd == nil || fd.Type.Results == nil || len(fd.Type.Results.List) != 2 || ex.str(fd.Type.Results.List[0].Type) != "*[]byte" {
+			ex.setRaw(name, typ, "none", "unknown: "+note)
+			return
+		}
+		p := &c01BufPaths{ex: ex, vars: map[string]int{}, maxPath: 64}
+		p.walk([][]ast.Stmt{fd.Body.List}, nil, -1)
+		if p.bad != "" || len(p.paths) == 0 {
+			ex.setRaw(name, typ, "none", "unknown ("+strings.ReplaceAll(p.bad, "-/", "- /")+"): "+note)
+			return
+		}
+		var ps []string
+		for _, path := range p.paths {
+			var es []string
+			for _, e := range path {
+				es = append(es, "("+itoaF(e[0])+", "+itoaF(e[1])+")")
+			}
+			ps = append(ps, "["+strings.Join(es, ", ")+"]")
+		}
+		ex.setRaw(name, typ, "some ["+strings.Join(ps, ", ")+"]", note+"; variables in order of first assignment: "+strings.Join(p.order, ", "))
+	})
+}
+
+func itoaF(n int) string {
+	if n == 0 {
+		return "0"
+	}
+	s := ""
+	for n > 0 {
+		s = string(rune('0'+n%10)) + s
+		n /= 10
+	}
+	return s
+}
